@@ -123,7 +123,7 @@ def programs(draw, max_steps=5, self_calls=(), soon=False, endings=('value', 'un
             elif kind == 'raise':
                 ret = ['raise', draw(st.sampled_from(['e1', 'e2']))]
             else:
-                ret = ['kill', draw(TEXTS)]
+                ret = ['kill', draw(st.one_of(TEXTS, st.just('__nomsg__')))]
         else:
             nxt = draw(st.integers(idx + 1, n - 1))
             if waits and draw(st.booleans()):
@@ -155,7 +155,7 @@ def control_schedules(draw, alphabet, max_events=4, max_gap=4, post=False):
             sched.append(['open', draw(st.sampled_from(GATES))])
         elif what == 'withdraw_pause':
             sched.append(['withdraw', 'pause'])
-        elif what in ('cancel_task', 'restep', 'reload', 'withdraw'):
+        elif what in ('cancel_task', 'restep', 'reload', 'withdraw', 'close'):
             sched.append([what])
         else:
             sched.append([what])
